@@ -403,10 +403,10 @@ func spaces(tier string) []kit.Space {
 	var sps []kit.Space
 	for _, aspect := range []string{"clone", "walk"} {
 		sps = append(sps,
-			space("multi-file", aspect, multi, true, slots),
-			space("statements", aspect, stmts, false, slots),
-			space("expressions", aspect, ecs, false, 3),
-			space("corpus", aspect, corpus, true, slots),
+			space("1-expressions", aspect, ecs, false, 3),
+			space("2-statements", aspect, stmts, false, slots),
+			space("3-multi-file", aspect, multi, true, slots),
+			space("4-corpus", aspect, corpus, true, slots),
 		)
 	}
 	return sps
